@@ -14,14 +14,17 @@ from .depthrules import _cond_env, _dnf, filter_rule, polarity_rule, table_rule
 LEVEL_TEXT = (
     "The statement is a set equality over all sequences of random decisions; deciding it needs an exhaustive "
     "enumeration against an independent enumerator of the bounded language, which is not this family.  Claimed are "
-    "structural necessary conditions: (R1) nothing feasible is pruned and nothing infeasible admitted - for every type "
-    "form creation's depth increment equals the distance table's increment and the true contribution in the default "
-    "mode, and the grow decider's filter is equivalent to 'distance <= remaining depth'; (R2) every random decision in "
-    "synthesis code flows through a RandomSource / decider call (no use of the random module, numpy.random, clocks, "
-    "uuid or id()/hash() values), so the decision tree is enumerable; (R3) the full decider admits a production that "
-    "cannot recurse further only when it ends exactly at the limit (distance == remaining depth); (R4) the recursion "
-    "analysis that the full and position-independent deciders rely on sees through every wrapper form (AND forms "
-    "aggregate with max; wrapper-unwrapping walkers recurse). Reachability of every valid program is not claimed."
+    "necessary conditions: (R1) nothing feasible is pruned and nothing infeasible admitted - for every type form "
+    "creation's depth increment (create_node interpreted per form, sa/treemodel.py) equals the distance table's increment "
+    "(get_distance_to_terminal interpreted with symbolic table entries) and the true contribution in the default mode, and "
+    "on every path of the grow decider the filter that reaches random.choice is equivalent to 'distance <= remaining "
+    "depth' (affine abstract interpretation, helpers inlined); (R2) every random decision in synthesis code flows through "
+    "a RandomSource / decider call (no use of the random module, numpy.random, clocks, uuid or id()/hash() values), so the "
+    "decision tree is enumerable; (R3) the full decider's frontier disjunct, evaluated in the filters that reach "
+    "random.choice, is 'distance == remaining depth' (the finding is keyed by the offset the code computes); (R4) the "
+    "recursion analysis that the full and position-independent deciders rely on sees through every wrapper form (AND forms "
+    "aggregate with max; explode_generics interpreted on nested wrapper types reaches every class inside; field types "
+    "reach it unfiltered). Reachability of every valid program is not claimed."
 )
 
 
